@@ -108,4 +108,16 @@ def fillShapeOK : Spec → V → Bool
   | .fill (.str _), _ => false
   | _, _ => true
 
+/-- identity observation of the harness on the implementation (the model's values are immutable
+    trees, so this part of the property — "containers are *rebuilt*" — is observed, not proved):
+    `noSpecObject`: no mutable container object of the spec is part of a result or was handed to a
+    callable (this includes empty containers); `rerunSame`: the same spec object evaluated a second
+    time, after every container glom created for the first result has been mutated, yields the
+    same result and call log as the first time -/
+structure FreshObs where
+  noSpecObject : Bool
+  rerunSame : Bool
+
+def checkFresh (o : FreshObs) : Bool := o.noSpecObject && o.rerunSame
+
 end Glom.Interp
